@@ -56,6 +56,27 @@ def crlf_norm(s):
     return [l for l in s.replace('\r', '').split('\n') if l.strip() != '']
 
 
+def verbatim_docs(m, rng):
+    """the same module with some doccomments written 'verbatim' (the model's leaderless form whose lines happen to carry the block's
+    indentation and '#'), so that a leader-only line can become a completely empty line: text the prescribed DocC form cannot express"""
+    import copy
+    m = copy.deepcopy(m); n = [0]
+    def rec(x):
+        if isinstance(x, dict):
+            if 'lines' in x and 'leader' in x and x.get('leader') and not x.get('open') and x['lines'] and rng.random() < 0.8:
+                lines = [x['ind'] + '#' + (' ' + l if l else '') for l in x['lines']]
+                for i, l in enumerate(x['lines']):
+                    if l == '' and rng.random() < 0.7: lines[i] = rng.choice(['', '', x['ind'], ' ']); n[0] += 1
+                if rng.random() < 0.5: lines.insert(rng.randint(0, len(lines)), rng.choice(['', '', x['ind']])); n[0] += 1
+                x['lines'] = lines; x['leader'] = False
+            else:
+                for v in x.values(): rec(v)
+        elif isinstance(x, list):
+            for v in x: rec(v)
+    rec(m)
+    return m, n[0]
+
+
 def family_suite(seed, count, k, out, drv, budget_s=None):
     t0 = time.time(); done = 0
     with impl.Sandbox() as sb:
@@ -71,6 +92,9 @@ def family_suite(seed, count, k, out, drv, budget_s=None):
             rend = drv.run([dict(op='render', module=m) for m in variants])
             srcs = [r['src'] for r in rend]
             srcs.append(srcs[1].replace('\r\n', '\n').replace('\n', '\r\n'))      # CRLF conversion of the mild layout
+            vm, nblank = verbatim_docs(variants[1], random.Random(f"C04/{seed}/{n}/verb"))
+            vsrc = drv.run([dict(op='render', module=vm)])[0]['src'].replace('\r\n', '\n')
+            srcs += [vsrc, vsrc.replace('\n', '\r\n')]; out.dist['verbatim-docs:empty-lines' if nblank else 'verbatim-docs:none'] += 1
             models = drv.run([dict(op='pipeline', cfg=suites.model_cfg(variants[0], cfg), headers=['#'], title='T', mod='M', src=s) for s in srcs])
             reals = [impl.real_pipeline(sb, s, impl.make_settings(cfg, headers=['#']), 'T', 'M') for s in srcs]
             out.traces_validated += len(srcs)
@@ -98,8 +122,14 @@ def family_suite(seed, count, k, out, drv, budget_s=None):
                     out.violations.append(dict(suite='layout-families', key=key, module=variants[1], cfg=cfg, source=srcs[k], base_source=srcs[1], crlf=True,
                                                detail=dict(kind='CRLF conversion changes more than line endings and blank lines',
                                                            lf=reals[1]['rst'], crlf=cr.get('rst', cr)), model_agrees=models[k].get('rst') == cr.get('rst')))
+            if 'rst' in reals[k + 1]:
+                cr = reals[k + 2]
+                if 'rst' not in cr or crlf_norm(cr['rst']) != crlf_norm(reals[k + 1]['rst']):
+                    out.violations.append(dict(suite='layout-families', key=key, module=vm, cfg=cfg, source=srcs[k + 2], base_source=srcs[k + 1], crlf=True,
+                                               detail=dict(kind='CRLF conversion changes more than line endings and blank lines (doccomments with empty lines)',
+                                                           lf=reals[k + 1]['rst'], crlf=cr.get('rst', cr)), model_agrees=models[k + 2].get('rst') == cr.get('rst')))
             done += 1
-    out.suites.append(dict(name='layout-families', modules=done, layouts_each=k + 1))
+    out.suites.append(dict(name='layout-families', modules=done, layouts_each=k + 3))
 
 
 def family_replay(v, drv):
@@ -345,6 +375,9 @@ def fault_suite(seed, n_modules, out, drv, budget_s=None, pairs=False, max_len=5
 
 
 def fault_replay(v, drv):
+    if v.get('suite') == 'cli-faults':
+        status, wrote = cli_fault_case(v['source'], v.get('layout', 'flat'))
+        return dict(fails=status == 0 or bool(wrote), status=status, pages_written=wrote)
     with impl.Sandbox() as sb:
         real = impl.real_pipeline(sb, v['source'], impl.make_settings(), 'T', 'M')
     mo = drv.run([dict(op='pipeline', cfg={}, headers=['#'], title='T', mod='M', src=v['source'])])[0]
@@ -353,43 +386,61 @@ def fault_replay(v, drv):
     return dict(fails=fails, real=real, model=mo, lex=rl if 'err' in rl else 'ok')
 
 
-def cli_fault_suite(seed, n, out, drv):
-    """CLI level: a faulty file makes `main` fail (exception or non-zero SystemExit) and leaves no .rst for that file"""
+CLI_LAYOUTS = ['file', 'flat', 'flat-r', 'root-then-sub', 'sub-then-sub', 'last-sub', 'deep-first', 'two-bad']
+
+
+def cli_fault_case(text, layout):
+    """run main() on a tree holding the faulty file `text` (layout names where it sits among healthy files); -> (status, pages written for faulty files)"""
     import contextlib, io
+    good = 'function(g)\nendfunction()\n'
+    with impl.Sandbox() as sb:
+        inp = os.path.join(sb.dir, 'in'); os.makedirs(inp)
+        files = {'a_good.cmake': good}
+        bad = ['bad.cmake']; rec = layout not in ('file', 'flat')
+        if layout == 'root-then-sub': files.update({'bad.cmake': text, 'sub/ok.cmake': good})
+        elif layout == 'sub-then-sub': files.update({'a_sub/bad.cmake': text, 'z_sub/ok.cmake': good}); bad = ['a_sub/bad.cmake']
+        elif layout == 'last-sub': files.update({'a_sub/ok.cmake': good, 'z_sub/bad.cmake': text}); bad = ['z_sub/bad.cmake']
+        elif layout == 'deep-first': files.update({'a_sub/deep/bad.cmake': text, 'a_sub/ok.cmake': good, 'z_sub/ok.cmake': good, 'zz.cmake': good}); bad = ['a_sub/deep/bad.cmake']
+        elif layout == 'two-bad': files.update({'bad.cmake': text, 'sub/bad2.cmake': 'set(x "abc)\n', 'sub/zub/ok.cmake': good}); bad = ['bad.cmake', 'sub/bad2.cmake']
+        else: files['bad.cmake'] = text
+        for rel, t in files.items():
+            os.makedirs(os.path.dirname(os.path.join(inp, rel)), exist_ok=True)
+            with open(os.path.join(inp, rel), 'w', newline='') as f: f.write(t)
+        outd = os.path.join(sb.dir, 'out')
+        args = [os.path.join(inp, 'bad.cmake') if layout == 'file' else inp, '-o', outd] + (['-r'] if rec else [])
+        status = 0
+        cfgdir = os.path.join(sb.dir, 'home'); os.makedirs(cfgdir)
+        old_env = {k_: os.environ.get(k_) for k_ in ('HOME', 'XDG_CONFIG_HOME')}
+        os.environ['HOME'] = cfgdir; os.environ['XDG_CONFIG_HOME'] = os.path.join(cfgdir, '.config')
+        try:
+            with contextlib.redirect_stdout(io.StringIO()), contextlib.redirect_stderr(io.StringIO()):
+                try: impl.cminx.main(args)
+                except SystemExit as e: status = e.code if isinstance(e.code, int) else (0 if e.code is None else 1)
+                except BaseException as e:
+                    if isinstance(e, (KeyboardInterrupt, MemoryError)): raise
+                    status = 1
+        finally:
+            for k_, v_ in old_env.items():
+                if v_ is None: os.environ.pop(k_, None)
+                else: os.environ[k_] = v_
+            import logging
+            logging.disable(logging.NOTSET)
+        wrote = [b for b in bad if os.path.exists(os.path.join(outd, b[:-len('.cmake')] + '.rst'))]
+    return status, wrote
+
+
+def cli_fault_suite(seed, n, out, drv):
+    """CLI level: a faulty file anywhere in the processed tree makes `main` fail (exception or non-zero SystemExit) and leaves no .rst for that file"""
     bad_files = ['set(x a\\bc)\n', 'set(x "abc)\nfoo()\n', 'set(x a)\n"\nset(y b)\n', '#[[ unterminated\nset(x a)\n', '#[=[ unterminated ]]\nset(x a)\n',
                  'set(y b)\nfoo', 'set(y b))\n', 'set(y (b)\n', 'set(x a\\', 'foo bar()\n', 'set(x \\9)\n', 'set(x "a\\qb")\n', 'set(x a)\n)\n',
                  'function(f)\nendfunction()\n"', 'function(f)\n#[[[\n# d\n#]]\nset(v 1)\nendfunction(\n']
     g = random.Random(f"C06/cli/{seed}")
     for k in range(n):
-        text = g.choice(bad_files)
-        with impl.Sandbox() as sb:
-            inp = os.path.join(sb.dir, 'in'); os.makedirs(inp)
-            good = 'function(g)\nendfunction()\n'
-            as_dir = g.random() < 0.5
-            with open(os.path.join(inp, 'bad.cmake'), 'w') as f: f.write(text)
-            with open(os.path.join(inp, 'a_good.cmake'), 'w') as f: f.write(good)
-            outd = os.path.join(sb.dir, 'out')
-            args = [inp if as_dir else os.path.join(inp, 'bad.cmake'), '-o', outd]
-            status = 0
-            cfgdir = os.path.join(sb.dir, 'home'); os.makedirs(cfgdir)
-            old_env = {k_: os.environ.get(k_) for k_ in ('HOME', 'XDG_CONFIG_HOME')}
-            os.environ['HOME'] = cfgdir; os.environ['XDG_CONFIG_HOME'] = os.path.join(cfgdir, '.config')
-            try:
-                with contextlib.redirect_stdout(io.StringIO()), contextlib.redirect_stderr(io.StringIO()):
-                    try: impl.cminx.main(args)
-                    except SystemExit as e: status = e.code if isinstance(e.code, int) else 1
-                    except BaseException as e:
-                        if isinstance(e, (KeyboardInterrupt, MemoryError)): raise
-                        status = 1
-            finally:
-                for k_, v_ in old_env.items():
-                    if v_ is None: os.environ.pop(k_, None)
-                    else: os.environ[k_] = v_
-                import logging
-                logging.disable(logging.NOTSET)
-            out.traces_validated += 1; out.evaluations += 1
-            wrote = os.path.exists(os.path.join(outd, 'bad.rst'))
-            out.dist['cli:status-nonzero' if status else 'cli:status-zero'] += 1
-            if status == 0 or wrote:
-                out.violations.append(dict(suite='cli-faults', key=(seed, k), source=text, detail=dict(kind='faulty file did not fail loudly at the command line', status=status, page_written=wrote), model_agrees=False))
+        text = g.choice(bad_files); layout = CLI_LAYOUTS[k % len(CLI_LAYOUTS)]
+        status, wrote = cli_fault_case(text, layout)
+        out.traces_validated += 1; out.evaluations += 1
+        out.dist['cli:status-nonzero' if status else 'cli:status-zero'] += 1; out.dist[f'cli-layout:{layout}'] += 1
+        if status == 0 or wrote:
+            out.violations.append(dict(suite='cli-faults', key=(seed, k), source=text, layout=layout,
+                                       detail=dict(kind='faulty file did not fail loudly at the command line', status=status, pages_written=wrote), model_agrees=False))
     out.suites.append(dict(name='cli-faults', runs=n))
